@@ -347,7 +347,7 @@ func RunC11(env *sim.Env) {
 	var hist []string
 	for _, r := range all {
 		hist = append(hist, fmt.Sprintf("c%d:%s", r.client, r.op))
-		env.Event("%d-%d c%d %s -> %016x err=%q", r.call, r.ret, r.client, r.op, sim.HashString(r.out), r.err)
+		env.Event("%d-%d c%d %s -> %016x err=%q", r.call, r.ret, r.client, r.op, sim.HashString(norm(r.out)), norm(r.err))
 	}
 	env.Stat("counters:yields", int64(sched.Steps))
 	env.Stat("counters:context_switches", int64(sched.Switches))
